@@ -251,7 +251,44 @@ def C20(ctx):
                   ["intended use: OnError / SetLogonRequest / SetUnmarshaller are called before Run"], CHECKER)
 
 
-PROPS = {"C05": C05, "C20": C20, "C19": C19, "C06": C06, "C07": C07, "C10": C10, "C14": C14, "C15": C15, "C16": C16, "C01": C01, "C17": C17, "C02": C02, "C18": C18, "C03": C03, "C11": C11}
+def C04(ctx):
+    if common_prelude(ctx, ["Props.C04"]):
+        n = sizes(ctx, 250, 4000)
+        for sd in seeds(ctx):
+            res = run_harness(ctx, f"frame-{sd}", "conn", ["-mode", "frame", "-seed", str(sd), "-n", str(n)])
+            fold(ctx, res, ["C04"], f"framing model vs real Conn under Initiator/Acceptor, seed {sd}")
+    ctx.rules.append("real Initiator and Acceptor (1-3 simultaneous connections) over in-memory pipes with a recording handler: 1-8 random well-formed messages per connection (values containing '10=', "
+                     "'110=', fields longer than bufio's 4096-byte buffer), streams cut into 1-byte / tiny / medium / large writes, channel buffers 0/1/10; the handler must get exactly the messages sent "
+                     "(one call at a time) and the model's frame op must agree; outbound: messages handed to Outgoing() must appear on the peer's side whole and in order; non-trivial = distinct chunked streams")
+    return finish(ctx, "proof", "Lean theorems C04_chunk / C04_frame (reader state machine, all message sequences and all chunkings) and C04_pipeline (FIFO hand-offs, all schedules) + regenerated channel facts (C04_channels) + correspondence over scripted transports",
+                  TRUSTED_COMMON + ["bufio.Reader.ReadBytes returns everything up to and including the delimiter independent of read chunking; Go channels are FIFO",
+                                    "the extractor's inventory of channel sends/receives (one sender per hand-off channel)"],
+                  ["messages are well-formed: no field other than the last starts with '10='"], CHECKER)
+
+
+def C13(ctx):
+    if common_prelude(ctx, ["Props.C13"]):
+        # the recorded stuck states of the initiating side (theorems C13_initiator_partial + _finding_witness hold)
+        if not ctx.broken:
+            ctx.violations.append({"sig": "C13 model initiator forwarder-in-ServeIncoming (C13_initiator_finding_witness)",
+                                   "detail": "the blocking structure of the initiating side has reachable stuck states: forwarder in ServeIncoming while the handler's context is never cancelled",
+                                   "replay": {"theorem": "Props.C13Sys.C13_initiator_finding_witness"}})
+        n = sizes(ctx, 30, 400)
+        for sd in seeds(ctx):
+            res = run_harness(ctx, f"faults-{sd}", "conn", ["-mode", "faults", "-seed", str(sd), "-n", str(n)])
+            fold(ctx, res, ["C13"], f"fault injection on real Initiator/Acceptor, seed {sd}")
+    ctx.rules.append("T-gen: inventory of every blocking operation (channel send/recv, select arms + default, Wait, net read/write/accept) regenerated from source and compared in Lean with the inventory the blocking "
+                     "structures were written against; search: real Initiator / Acceptor + DefaultHandler over in-memory pipes, causes {peer close, handler stop, local close, write timeout} injected at a random moment with "
+                     "inbound flood and/or outbound sends in flight, slow application handler, buffers 0/1/10; afterwards: goroutine profile filtered for library frames, Serve returned, socket closed, "
+                     "disconnect/stopped notification, later sends return; non-trivial = distinct (role, cause, buffer, traffic) combinations")
+    return finish(ctx, "proof", "Lean: generic soundness of the reachable-stuck-state check (checkSysP_sound) + kernel evaluation on the accepting and initiating blocking structures per termination cause + regenerated blocking inventory (C13_generated) + fault-injection search",
+                  TRUSTED_COMMON + ["the hand-written blocking structures ConnSys.acceptor / ConnSys.initiator (points, escapes, partners, exit flags) — tied to the source only through the regenerated inventory of blocking operations",
+                                    "a Lock is non-blocking (every critical section terminates); code between blocking points terminates; conn.Write returns at its deadline",
+                                    "safety only: bounded settling time is measured by the fault harness (2.5 s budget), not proved"],
+                  ["liveness (each goroutine actually exits once it can) needs fairness of select"], CHECKER)
+
+
+PROPS = {"C04": C04, "C13": C13, "C05": C05, "C20": C20, "C19": C19, "C06": C06, "C07": C07, "C10": C10, "C14": C14, "C15": C15, "C16": C16, "C01": C01, "C17": C17, "C02": C02, "C18": C18, "C03": C03, "C11": C11}
 
 
 def replay(ctx, path):
